@@ -3,7 +3,7 @@
    the parser's dispatch is decided by the AST-first search (see DESIGN.md). *)
 From Coq Require Import NArith List Bool.
 Import ListNotations.
-From CXV Require Import Gen.TokTy Parse.Balanced Parse.BalancedThms Parse.Declarator Parse.DeclSpec Parse.DeclThms.
+From CXV Require Import Gen.TokTy Parse.Balanced Parse.BalancedThms Parse.Declarator Parse.DeclSpec Parse.DeclThms Parse.DeclPins.
 From CXV Require Import Parse.Fold Parse.FoldThms Parse.FoldPlace.
 Open Scope N_scope.
 
@@ -20,6 +20,15 @@ Theorem one_entry_per_declarator_partial : forall b c v (ts : list (ty * N)) res
      (DOk (map (fun p => (snd p, fst p)) ts, rest)).
 Proof. exact decls_roundtrip. Qed.
 
+(* A function declaration `R-declarator( name ( parameters ) )`: the reported
+   return type, name, parameter list (types and names in order) and vararg
+   flag are those written, for every legal function type (any nesting of the
+   return type and of the parameter types); the tokens after the ')' are left. *)
+Theorem function_declaration_decodes_partial : forall rt ps va n rest,
+  DeclSpec.wf (TFn rt ps va) -> nolb rest = true ->
+  ev (fun f => fn_decl f (decl_toks (TFn rt ps va) (Some n) ++ rest)) (DOk (n, rt, ps, va, rest)).
+Proof. exact fn_roundtrip. Qed.
+
 (* The collecting visitor: the items found in the namespace reached by [path]
    are exactly the items written directly in that namespace -- through extern
    blocks, through `namespace a::b { }` headers, across re-openings -- in source
@@ -28,7 +37,14 @@ Theorem items_land_where_written : forall body path,
   items_of (lookup path (fold_ns body)) = flat_map (written path) body.
 Proof. exact items_land_where_written_lemma. Qed.
 
+(* the code the model mirrors is the pinned one, and the token sets it tests
+   the stream for are the sets the model hard-codes (regenerated on every run) *)
+Theorem declarator_code_is_the_modelled_one : decl_sets_ok = true.
+Proof. exact decl_sets_ok_true. Qed.
+
+Print Assumptions declarator_code_is_the_modelled_one.
 Print Assumptions one_entry_per_declarator_partial.
+Print Assumptions function_declaration_decodes_partial.
 Print Assumptions items_land_where_written.
 
 (* non-vacuity *)
